@@ -1,0 +1,657 @@
+//! Verification-build primitives (`RUSTFLAGS="--cfg excsn_fibre_verif"` only).
+//!
+//! Same export list as `real.rs`, wrapping the std / parking_lot primitives.
+//! Every access first calls the [`rt::Runtime`] installed on the current thread
+//! (a yield point for a deterministic scheduler), performs the real operation,
+//! then reports what it read / wrote. With no runtime installed every wrapper
+//! falls straight through to the real primitive, so the crate behaves normally.
+//! With the guard off this file is not compiled at all.
+
+pub(crate) use std::sync::atomic::Ordering;
+pub(crate) use std::sync::Arc;
+
+pub(crate) const IS_LOOM: bool = false;
+
+pub(crate) use self::thread::Thread;
+
+/// Public (as `fibre::verif`) runtime interface for an external harness.
+pub mod rt {
+  use std::cell::RefCell;
+  use std::panic::Location;
+  use std::sync::atomic::{AtomicU64, Ordering};
+  use std::sync::Arc;
+  use std::time::Duration;
+
+  /// What kind of primitive operation an [`Event`] describes.
+  #[derive(Clone, Copy, Debug, PartialEq, Eq)]
+  pub enum Kind {
+    Load,
+    Store,
+    Swap,
+    Cas,
+    CasWeak,
+    FetchAdd,
+    FetchSub,
+    FetchOr,
+    FetchAnd,
+    Fence,
+    MutexLock,
+    MutexTryLock,
+    MutexUnlock,
+    Park,
+    ParkTimeout,
+    Unpark,
+    Yield,
+    Spin,
+    Sleep,
+  }
+
+  /// Identity of a traced variable: its creation site and a process-unique id.
+  #[derive(Clone, Copy, Debug)]
+  pub struct Var {
+    pub file: &'static str,
+    pub line: u32,
+    pub col: u32,
+    pub id: u64,
+  }
+
+  /// One primitive operation. `before` gets it with `result`/`ok` unset.
+  #[derive(Clone, Copy, Debug)]
+  pub struct Event {
+    pub kind: Kind,
+    pub var: Option<Var>,
+    pub ord: Option<Ordering>,
+    pub ord_fail: Option<Ordering>,
+    /// store/swap/fetch operand, CAS expected value, unpark target tid
+    pub a: u64,
+    /// CAS new value
+    pub b: u64,
+    /// value read / previous value
+    pub result: u64,
+    /// CAS / try_lock success
+    pub ok: bool,
+    pub at_file: &'static str,
+    pub at_line: u32,
+  }
+
+  /// The scheduler side. All methods are called on the thread performing the op.
+  pub trait Runtime: Send + Sync {
+    /// Yield point immediately before the operation (may block until scheduled).
+    fn before(&self, ev: &Event);
+    /// Report immediately after the operation, with `result`/`ok` filled in.
+    fn after(&self, ev: &Event);
+    /// `thread::park` / `park_timeout`: returns when a token is available or
+    /// (timeout form, or spuriously) when the scheduler decides.
+    fn park(&self, timeout: Option<Duration>);
+    /// `Thread::unpark` on a scheduler-managed thread.
+    fn unpark(&self, tid: usize);
+    /// Scheduler id of the calling thread.
+    fn tid(&self) -> usize;
+    /// Should this `compare_exchange_weak` fail spuriously?
+    fn spurious(&self) -> bool;
+  }
+
+  thread_local! {
+    static RT: RefCell<Option<Arc<dyn Runtime>>> = const { RefCell::new(None) };
+  }
+
+  /// Installs `rt` for the calling thread.
+  pub fn install(rt: Arc<dyn Runtime>) {
+    RT.with(|r| *r.borrow_mut() = Some(rt));
+  }
+
+  /// Removes the calling thread's runtime.
+  pub fn uninstall() {
+    RT.with(|r| *r.borrow_mut() = None);
+  }
+
+  #[inline]
+  pub(crate) fn current() -> Option<Arc<dyn Runtime>> {
+    RT.try_with(|r| r.borrow().clone()).ok().flatten()
+  }
+
+  static NEXT_ID: AtomicU64 = AtomicU64::new(1);
+
+  /// Creation site + lazily assigned id of a traced variable.
+  #[derive(Debug)]
+  pub(crate) struct Site {
+    loc: &'static Location<'static>,
+    id: AtomicU64,
+  }
+
+  impl Site {
+    #[track_caller]
+    pub(crate) const fn here() -> Self {
+      Site { loc: Location::caller(), id: AtomicU64::new(0) }
+    }
+
+    pub(crate) fn var(&self) -> Var {
+      let mut id = self.id.load(Ordering::Relaxed);
+      if id == 0 {
+        let fresh = NEXT_ID.fetch_add(1, Ordering::Relaxed);
+        id = match self.id.compare_exchange(0, fresh, Ordering::Relaxed, Ordering::Relaxed) {
+          Ok(_) => fresh,
+          Err(cur) => cur,
+        };
+      }
+      Var { file: self.loc.file(), line: self.loc.line(), col: self.loc.column(), id }
+    }
+  }
+
+  #[inline]
+  pub(crate) fn event(kind: Kind, var: Option<Var>, at: &'static Location<'static>) -> Event {
+    Event {
+      kind,
+      var,
+      ord: None,
+      ord_fail: None,
+      a: 0,
+      b: 0,
+      result: 0,
+      ok: true,
+      at_file: at.file(),
+      at_line: at.line(),
+    }
+  }
+}
+
+use rt::{Kind, Site};
+use std::panic::Location;
+
+macro_rules! traced_int {
+  ($name:ident, $std:ty, $prim:ty) => {
+    #[derive(Debug)]
+    pub(crate) struct $name {
+      inner: $std,
+      site: Site,
+    }
+
+    #[allow(dead_code)]
+    impl $name {
+      #[track_caller]
+      pub(crate) const fn new(v: $prim) -> Self {
+        Self { inner: <$std>::new(v), site: Site::here() }
+      }
+
+      #[inline]
+      pub(crate) fn get_mut(&mut self) -> &mut $prim {
+        self.inner.get_mut()
+      }
+
+      #[track_caller]
+      pub(crate) fn load(&self, ord: Ordering) -> $prim {
+        match rt::current() {
+          None => self.inner.load(ord),
+          Some(r) => {
+            let mut ev = rt::event(Kind::Load, Some(self.site.var()), Location::caller());
+            ev.ord = Some(ord);
+            r.before(&ev);
+            let v = self.inner.load(ord);
+            ev.result = v as u64;
+            r.after(&ev);
+            v
+          }
+        }
+      }
+
+      #[track_caller]
+      pub(crate) fn store(&self, val: $prim, ord: Ordering) {
+        match rt::current() {
+          None => self.inner.store(val, ord),
+          Some(r) => {
+            let mut ev = rt::event(Kind::Store, Some(self.site.var()), Location::caller());
+            ev.ord = Some(ord);
+            ev.a = val as u64;
+            r.before(&ev);
+            self.inner.store(val, ord);
+            r.after(&ev);
+          }
+        }
+      }
+
+      #[track_caller]
+      pub(crate) fn swap(&self, val: $prim, ord: Ordering) -> $prim {
+        match rt::current() {
+          None => self.inner.swap(val, ord),
+          Some(r) => {
+            let mut ev = rt::event(Kind::Swap, Some(self.site.var()), Location::caller());
+            ev.ord = Some(ord);
+            ev.a = val as u64;
+            r.before(&ev);
+            let v = self.inner.swap(val, ord);
+            ev.result = v as u64;
+            r.after(&ev);
+            v
+          }
+        }
+      }
+
+      #[track_caller]
+      pub(crate) fn compare_exchange(
+        &self,
+        cur: $prim,
+        new: $prim,
+        ok: Ordering,
+        fail: Ordering,
+      ) -> Result<$prim, $prim> {
+        match rt::current() {
+          None => self.inner.compare_exchange(cur, new, ok, fail),
+          Some(r) => {
+            let mut ev = rt::event(Kind::Cas, Some(self.site.var()), Location::caller());
+            ev.ord = Some(ok);
+            ev.ord_fail = Some(fail);
+            ev.a = cur as u64;
+            ev.b = new as u64;
+            r.before(&ev);
+            let res = self.inner.compare_exchange(cur, new, ok, fail);
+            ev.ok = res.is_ok();
+            ev.result = match res {
+              Ok(v) | Err(v) => v as u64,
+            };
+            r.after(&ev);
+            res
+          }
+        }
+      }
+
+      #[track_caller]
+      pub(crate) fn compare_exchange_weak(
+        &self,
+        cur: $prim,
+        new: $prim,
+        ok: Ordering,
+        fail: Ordering,
+      ) -> Result<$prim, $prim> {
+        match rt::current() {
+          None => self.inner.compare_exchange_weak(cur, new, ok, fail),
+          Some(r) => {
+            let mut ev = rt::event(Kind::CasWeak, Some(self.site.var()), Location::caller());
+            ev.ord = Some(ok);
+            ev.ord_fail = Some(fail);
+            ev.a = cur as u64;
+            ev.b = new as u64;
+            r.before(&ev);
+            let res = if r.spurious() {
+              Err(self.inner.load(fail))
+            } else {
+              self.inner.compare_exchange(cur, new, ok, fail)
+            };
+            ev.ok = res.is_ok();
+            ev.result = match res {
+              Ok(v) | Err(v) => v as u64,
+            };
+            r.after(&ev);
+            res
+          }
+        }
+      }
+    }
+  };
+}
+
+macro_rules! traced_fetch {
+  ($name:ident, $prim:ty, $($m:ident => $k:ident),*) => {
+    #[allow(dead_code)]
+    impl $name {
+      $(
+        #[track_caller]
+        pub(crate) fn $m(&self, val: $prim, ord: Ordering) -> $prim {
+          match rt::current() {
+            None => self.inner.$m(val, ord),
+            Some(r) => {
+              let mut ev = rt::event(Kind::$k, Some(self.site.var()), Location::caller());
+              ev.ord = Some(ord);
+              ev.a = val as u64;
+              r.before(&ev);
+              let v = self.inner.$m(val, ord);
+              ev.result = v as u64;
+              r.after(&ev);
+              v
+            }
+          }
+        }
+      )*
+    }
+  };
+}
+
+traced_int!(AtomicUsize, std::sync::atomic::AtomicUsize, usize);
+traced_int!(AtomicU64, std::sync::atomic::AtomicU64, u64);
+traced_int!(AtomicU32, std::sync::atomic::AtomicU32, u32);
+traced_int!(AtomicU8, std::sync::atomic::AtomicU8, u8);
+traced_int!(AtomicBool, std::sync::atomic::AtomicBool, bool);
+traced_fetch!(AtomicUsize, usize, fetch_add => FetchAdd, fetch_sub => FetchSub, fetch_or => FetchOr, fetch_and => FetchAnd);
+traced_fetch!(AtomicU64, u64, fetch_add => FetchAdd, fetch_sub => FetchSub, fetch_or => FetchOr, fetch_and => FetchAnd);
+traced_fetch!(AtomicU32, u32, fetch_add => FetchAdd, fetch_sub => FetchSub, fetch_or => FetchOr, fetch_and => FetchAnd);
+traced_fetch!(AtomicU8, u8, fetch_add => FetchAdd, fetch_sub => FetchSub, fetch_or => FetchOr, fetch_and => FetchAnd);
+traced_fetch!(AtomicBool, bool, fetch_or => FetchOr, fetch_and => FetchAnd);
+
+/// Traced `AtomicPtr` (pointer values are reported as addresses).
+#[derive(Debug)]
+pub(crate) struct AtomicPtr<T> {
+  inner: std::sync::atomic::AtomicPtr<T>,
+  site: Site,
+}
+
+#[allow(dead_code)]
+impl<T> AtomicPtr<T> {
+  #[track_caller]
+  pub(crate) const fn new(p: *mut T) -> Self {
+    Self { inner: std::sync::atomic::AtomicPtr::new(p), site: Site::here() }
+  }
+
+  #[inline]
+  pub(crate) fn get_mut(&mut self) -> &mut *mut T {
+    self.inner.get_mut()
+  }
+
+  #[track_caller]
+  pub(crate) fn load(&self, ord: Ordering) -> *mut T {
+    match rt::current() {
+      None => self.inner.load(ord),
+      Some(r) => {
+        let mut ev = rt::event(Kind::Load, Some(self.site.var()), Location::caller());
+        ev.ord = Some(ord);
+        r.before(&ev);
+        let v = self.inner.load(ord);
+        ev.result = v as usize as u64;
+        r.after(&ev);
+        v
+      }
+    }
+  }
+
+  #[track_caller]
+  pub(crate) fn store(&self, val: *mut T, ord: Ordering) {
+    match rt::current() {
+      None => self.inner.store(val, ord),
+      Some(r) => {
+        let mut ev = rt::event(Kind::Store, Some(self.site.var()), Location::caller());
+        ev.ord = Some(ord);
+        ev.a = val as usize as u64;
+        r.before(&ev);
+        self.inner.store(val, ord);
+        r.after(&ev);
+      }
+    }
+  }
+
+  #[track_caller]
+  pub(crate) fn swap(&self, val: *mut T, ord: Ordering) -> *mut T {
+    match rt::current() {
+      None => self.inner.swap(val, ord),
+      Some(r) => {
+        let mut ev = rt::event(Kind::Swap, Some(self.site.var()), Location::caller());
+        ev.ord = Some(ord);
+        ev.a = val as usize as u64;
+        r.before(&ev);
+        let v = self.inner.swap(val, ord);
+        ev.result = v as usize as u64;
+        r.after(&ev);
+        v
+      }
+    }
+  }
+
+  #[track_caller]
+  pub(crate) fn compare_exchange(
+    &self,
+    cur: *mut T,
+    new: *mut T,
+    ok: Ordering,
+    fail: Ordering,
+  ) -> Result<*mut T, *mut T> {
+    match rt::current() {
+      None => self.inner.compare_exchange(cur, new, ok, fail),
+      Some(r) => {
+        let mut ev = rt::event(Kind::Cas, Some(self.site.var()), Location::caller());
+        ev.ord = Some(ok);
+        ev.ord_fail = Some(fail);
+        ev.a = cur as usize as u64;
+        ev.b = new as usize as u64;
+        r.before(&ev);
+        let res = self.inner.compare_exchange(cur, new, ok, fail);
+        ev.ok = res.is_ok();
+        ev.result = match res {
+          Ok(v) | Err(v) => v as usize as u64,
+        };
+        r.after(&ev);
+        res
+      }
+    }
+  }
+
+  #[track_caller]
+  pub(crate) fn compare_exchange_weak(
+    &self,
+    cur: *mut T,
+    new: *mut T,
+    ok: Ordering,
+    fail: Ordering,
+  ) -> Result<*mut T, *mut T> {
+    self.compare_exchange(cur, new, ok, fail)
+  }
+}
+
+/// Traced memory fence.
+#[track_caller]
+pub(crate) fn fence(ord: Ordering) {
+  match rt::current() {
+    None => std::sync::atomic::fence(ord),
+    Some(r) => {
+      let mut ev = rt::event(Kind::Fence, None, Location::caller());
+      ev.ord = Some(ord);
+      r.before(&ev);
+      std::sync::atomic::fence(ord);
+      r.after(&ev);
+    }
+  }
+}
+
+pub(crate) mod hint {
+  use super::rt::{self, Kind};
+  use std::panic::Location;
+
+  /// A spin hint is a yield point: the scheduler may deprioritise the spinner.
+  #[track_caller]
+  pub(crate) fn spin_loop() {
+    match rt::current() {
+      None => std::hint::spin_loop(),
+      Some(r) => {
+        let ev = rt::event(Kind::Spin, None, Location::caller());
+        r.before(&ev);
+        r.after(&ev);
+      }
+    }
+  }
+}
+
+pub(crate) mod thread {
+  use super::rt::{self, Kind};
+  use std::panic::Location;
+  use std::time::Duration;
+
+  #[allow(unused_imports)]
+  pub use std::thread::{sleep as real_sleep, spawn, JoinHandle, ThreadId};
+
+  /// `std::thread::Thread` or a scheduler-managed thread.
+  #[derive(Clone, Debug)]
+  pub enum Thread {
+    Real(std::thread::Thread),
+    Sched(usize, std::thread::Thread),
+  }
+
+  impl Thread {
+    #[track_caller]
+    pub fn unpark(&self) {
+      match self {
+        Thread::Real(t) => t.unpark(),
+        Thread::Sched(tid, t) => match rt::current() {
+          // unpark issued from a scheduler-managed thread
+          Some(r) => {
+            let mut ev = rt::event(Kind::Unpark, None, Location::caller());
+            ev.a = *tid as u64;
+            r.before(&ev);
+            r.unpark(*tid);
+            r.after(&ev);
+          }
+          // unpark from an unmanaged thread: fall back to the OS token
+          None => t.unpark(),
+        },
+      }
+    }
+
+    pub fn id(&self) -> ThreadId {
+      match self {
+        Thread::Real(t) | Thread::Sched(_, t) => t.id(),
+      }
+    }
+  }
+
+  pub fn current() -> Thread {
+    match rt::current() {
+      None => Thread::Real(std::thread::current()),
+      Some(r) => Thread::Sched(r.tid(), std::thread::current()),
+    }
+  }
+
+  #[track_caller]
+  pub fn park() {
+    match rt::current() {
+      None => std::thread::park(),
+      Some(r) => {
+        let ev = rt::event(Kind::Park, None, Location::caller());
+        r.before(&ev);
+        r.park(None);
+        r.after(&ev);
+      }
+    }
+  }
+
+  #[track_caller]
+  pub fn park_timeout(d: Duration) {
+    match rt::current() {
+      None => std::thread::park_timeout(d),
+      Some(r) => {
+        let mut ev = rt::event(Kind::ParkTimeout, None, Location::caller());
+        ev.a = d.as_nanos() as u64;
+        r.before(&ev);
+        r.park(Some(d));
+        r.after(&ev);
+      }
+    }
+  }
+
+  #[track_caller]
+  pub fn yield_now() {
+    match rt::current() {
+      None => std::thread::yield_now(),
+      Some(r) => {
+        let ev = rt::event(Kind::Yield, None, Location::caller());
+        r.before(&ev);
+        r.after(&ev);
+      }
+    }
+  }
+
+  #[track_caller]
+  pub fn sleep(d: Duration) {
+    match rt::current() {
+      None => std::thread::sleep(d),
+      Some(r) => {
+        let mut ev = rt::event(Kind::Sleep, None, Location::caller());
+        ev.a = d.as_nanos() as u64;
+        r.before(&ev);
+        r.after(&ev);
+      }
+    }
+  }
+}
+
+/// parking_lot-API mutex. Under a runtime, `lock` is a yield-then-`try_lock`
+/// loop so a blocked acquirer never stalls the scheduler's baton.
+#[derive(Debug)]
+pub(crate) struct Mutex<T> {
+  inner: parking_lot::Mutex<T>,
+  site: Site,
+}
+
+pub(crate) struct MutexGuard<'a, T> {
+  guard: Option<parking_lot::MutexGuard<'a, T>>,
+  site: &'a Site,
+}
+
+#[allow(dead_code)]
+impl<T> Mutex<T> {
+  #[track_caller]
+  pub(crate) const fn new(value: T) -> Self {
+    Self { inner: parking_lot::Mutex::new(value), site: Site::here() }
+  }
+
+  #[track_caller]
+  pub(crate) fn lock(&self) -> MutexGuard<'_, T> {
+    match rt::current() {
+      None => MutexGuard { guard: Some(self.inner.lock()), site: &self.site },
+      Some(r) => loop {
+        let mut ev = rt::event(Kind::MutexLock, Some(self.site.var()), Location::caller());
+        r.before(&ev);
+        let g = self.inner.try_lock();
+        ev.ok = g.is_some();
+        r.after(&ev);
+        if let Some(g) = g {
+          return MutexGuard { guard: Some(g), site: &self.site };
+        }
+      },
+    }
+  }
+
+  #[track_caller]
+  pub(crate) fn try_lock(&self) -> Option<MutexGuard<'_, T>> {
+    match rt::current() {
+      None => self.inner.try_lock().map(|g| MutexGuard { guard: Some(g), site: &self.site }),
+      Some(r) => {
+        let mut ev = rt::event(Kind::MutexTryLock, Some(self.site.var()), Location::caller());
+        r.before(&ev);
+        let g = self.inner.try_lock();
+        ev.ok = g.is_some();
+        r.after(&ev);
+        g.map(|g| MutexGuard { guard: Some(g), site: &self.site })
+      }
+    }
+  }
+
+  #[inline]
+  pub(crate) fn get_mut(&mut self) -> &mut T {
+    self.inner.get_mut()
+  }
+}
+
+impl<T> std::ops::Deref for MutexGuard<'_, T> {
+  type Target = T;
+  #[inline]
+  fn deref(&self) -> &T {
+    self.guard.as_ref().unwrap()
+  }
+}
+
+impl<T> std::ops::DerefMut for MutexGuard<'_, T> {
+  #[inline]
+  fn deref_mut(&mut self) -> &mut T {
+    self.guard.as_mut().unwrap()
+  }
+}
+
+impl<T> Drop for MutexGuard<'_, T> {
+  fn drop(&mut self) {
+    match rt::current() {
+      None => drop(self.guard.take()),
+      Some(r) => {
+        // the release is reported as its own step (no yield: a holder is never
+        // descheduled between deciding to release and releasing)
+        let ev = rt::event(Kind::MutexUnlock, Some(self.site.var()), Location::caller());
+        drop(self.guard.take());
+        r.after(&ev);
+      }
+    }
+  }
+}
